@@ -17,7 +17,32 @@ fn rposition_contract<const N: usize>() {
     }
 }
 
+/// BOUNDED stand-in for the one assumed kernel body, `reciprocal_mg10` (MG10 Alg. 3: table seed + three Newton steps over wrapping
+/// words): on CONCRETE divisors - for each of the rows `lo..hi` of the 256-row seed table the bottom of the row, bottom + 1, the
+/// middle, the top and top - 1 (d = (256 + row) << 55 | low) - the result equals `reciprocal_ref` = floor((2^128 - 1) / d) - 2^64.
+/// The row edges are where a wrong seed or a dropped `- 1` shows first (the Newton steps absorb it in the interior).
+/// Rows 0..=254 only: CBMC 6.11 itself crashes (exit status 136) while constant-folding row 255; that row is not covered.
+fn reciprocal_rows(lo: u64, hi: u64) {
+    use ruint::algorithms::div::{reciprocal_mg10, reciprocal_ref};
+    const TOP: u64 = (1u64 << 55) - 1;
+    let lows = [0u64, 1, (1u64 << 54) + 3, TOP - 1, TOP, 0x2a_aaaa_aaaa_aaaa, 0x55_5555_5555_5555 & TOP];
+    let mut row = lo;
+    while row < hi {
+        let mut k = 0;
+        while k < 7 {
+            let d = ((256 + row) << 55) | lows[k];
+            assert!(reciprocal_mg10(d) == reciprocal_ref(d), "reciprocal_mg10(d) == floor((2^128 - 1) / d) - 2^64 on the row-edge grid");
+            k += 1;
+        }
+        row += 1;
+    }
+}
+
 crate::harnesses! {
+    #[cfg_attr(kani, kani::unwind(66))] fn c14_reciprocal_rows_0() { reciprocal_rows(0, 64) }
+    #[cfg_attr(kani, kani::unwind(66))] fn c14_reciprocal_rows_1() { reciprocal_rows(64, 128) }
+    #[cfg_attr(kani, kani::unwind(66))] fn c14_reciprocal_rows_2() { reciprocal_rows(128, 192) }
+    #[cfg_attr(kani, kani::unwind(66))] fn c14_reciprocal_rows_3() { reciprocal_rows(192, 255) }
     // N14 wrapper rposition_nonzero (unit divd): std's Iterator::rposition on slices of length 0..=8 (bounded)
     #[cfg_attr(kani, kani::unwind(10))] fn c14_rposition_len8() { rposition_contract::<8>() }
     // lemma_lz_facts (unit knuth): x >= 1  ==>  lz < 64  and  2^63 <= x << lz < 2^64 (no bits lost)
